@@ -6,6 +6,13 @@
 // trash deadlines) backwards by whole seconds: virtual time = real time + offset.  TTL is 2 h and the
 // generator keeps every age/deadline comparison at least 5 s away from its boundary, so real clock
 // jitter cannot change an outcome.
+//
+// Which volumes the server may change is NOT taken from the server: the case carries the cluster
+// configuration as written (Volumes.<uuid>.ReadOnly and AccessViaHosts entries for this server's URL
+// and for another server's), the evaluator derives from it which volumes are writable for this
+// server, and every configured volume's directory (also of volumes that only another server may
+// use) is listed after every request.  Block files and trashed copies of various ages are planted
+// in the directories before the history starts, so that read-only volumes have something to lose.
 package main
 
 import (
@@ -42,15 +49,16 @@ type c04Listing struct {
 }
 
 type c04World struct {
-	env *ksEnv
-	off int64 // seconds
+	env  *ksEnv
+	dirs []string // every configured volume's directory, in case order: the server's mounts in mount order, then the volumes it does not mount
+	off  int64    // seconds
 }
 
 func (w *c04World) vnow() int64 { return time.Now().UnixNano() + w.off*1e9 }
 
 func (w *c04World) listing() []c04Listing {
-	out := make([]c04Listing, len(w.env.dirs))
-	for mi, dir := range w.env.dirs {
+	out := make([]c04Listing, len(w.dirs))
+	for mi, dir := range w.dirs {
 		var l c04Listing
 		subs, _ := ioutil.ReadDir(dir)
 		for _, sd := range subs {
@@ -85,7 +93,7 @@ func (w *c04World) listing() []c04Listing {
 
 // advance lets delta seconds pass: every mtime and every trash deadline moves back by delta.
 func (w *c04World) advance(delta int64) {
-	for _, dir := range w.env.dirs {
+	for _, dir := range w.dirs {
 		subs, _ := ioutil.ReadDir(dir)
 		for _, sd := range subs {
 			if !sd.IsDir() {
@@ -219,6 +227,46 @@ func c04History(t *testing.T, r *vRand, idx int) (string, map[string]interface{}
 	} else if r.Chance(1, 25) {
 		ro[0] = true
 	}
+	// per-host access (Volumes.<uuid>.AccessViaHosts): 45 % of the cases.  Strata: a volume shared with
+	// another server and read-only for one of them, entries without effect, a volume of the other server only
+	var access []ksAccess
+	var tags []string
+	if r.Chance(9, 20) {
+		access = make([]ksAccess, nvol)
+		for k := range access {
+			switch r.Intn(8) {
+			case 0, 1, 2: // shared: read-only here, writable there
+				access[k] = ksAccess{self: 2, other: 1}
+			case 3: // read-only here, no other server
+				access[k] = ksAccess{self: 2}
+			case 4: // shared: writable here, read-only there
+				access[k] = ksAccess{self: 1, other: 2}
+			case 5:
+				access[k] = ksAccess{self: 1, other: r.Intn(3)}
+			case 6:
+				access[k] = ksAccess{self: 2, other: 2}
+			}
+		}
+		if nvol == 2 && access[0].self == 2 && access[1].self == 2 && r.Chance(2, 3) {
+			access[r.Intn(2)] = ksAccess{self: 1, other: r.Intn(3)}
+		}
+		if nvol == 1 && access[0].self == 2 && r.Chance(3, 4) {
+			// a lone volume that is read-only here leaves nothing to write to: mostly give it a writable companion
+			nvol = 2
+			ro = append(ro, false)
+			access = append(access, ksAccess{self: r.Intn(2), other: 0})
+			if access[1].self == 1 {
+				access[1].other = r.Intn(3)
+			}
+		}
+		if r.Chance(1, 3) {
+			// one more configured volume, named for the other server only (any flags): not ours
+			ro = append(ro, r.Chance(1, 4))
+			access = append(access, ksAccess{other: 1 + r.Intn(2)})
+			tags = append(tags, "cfg=foreign-volume")
+		}
+		tags = append(tags, "cfg=access-via-hosts")
+	}
 	blobTrash := !r.Chance(1, 8)
 	lifeS := int64(86400)
 	switch r.Intn(8) {
@@ -227,12 +275,40 @@ func c04History(t *testing.T, r *vRand, idx int) (string, map[string]interface{}
 	case 1:
 		lifeS = 3600
 	}
-	env, err := ksNewEnv(ksOpts{ro: ro, ttl: time.Duration(ttl), lifetime: time.Duration(lifeS) * time.Second, blobTrash: blobTrash})
+	env, err := ksNewEnv(ksOpts{ro: ro, access: access, ttl: time.Duration(ttl), lifetime: time.Duration(lifeS) * time.Second, blobTrash: blobTrash})
 	if err != nil {
 		t.Fatal(err)
 	}
 	defer env.cleanup()
+	// the mounts as the server advertises them (GET /mounts), then the configured volumes it does not mount
+	advU, advRO, err := env.advertised()
+	if err != nil {
+		t.Fatal(err)
+	}
+	var order []int // case order -> configuration index
+	for _, u := range advU {
+		for k, cu := range env.cfgUUIDs {
+			if cu == u {
+				order = append(order, k)
+			}
+		}
+	}
+	if len(order) != len(advU) {
+		t.Fatalf("GET /mounts names an unknown mount: %v", advU)
+	}
+	for k := range env.cfgUUIDs {
+		seen := false
+		for _, o := range order {
+			seen = seen || o == k
+		}
+		if !seen {
+			order = append(order, k)
+		}
+	}
 	w := &c04World{env: env}
+	for _, k := range order {
+		w.dirs = append(w.dirs, env.cfgDirs[k])
+	}
 	nblk := 2 + r.Intn(2)
 	var datas [][]byte
 	var hashes []string
@@ -244,7 +320,6 @@ func c04History(t *testing.T, r *vRand, idx int) (string, map[string]interface{}
 		hashes = append(hashes, h)
 		names[h] = string(rune('a' + k))
 	}
-	var tags []string
 	var steps, descs []string
 	fuzzy := false
 	sawTrashed, sawUntrash, sawEmptied, sawKept := false, false, false, false
@@ -264,7 +339,35 @@ func c04History(t *testing.T, r *vRand, idx int) (string, map[string]interface{}
 	if lifeS > 0 {
 		advChoices = append(advChoices, lifeS-ttlS-17, lifeS-17, lifeS+17, 2*lifeS+5)
 	}
-	before := w.listing()
+	// plant block files and trashed copies of various ages (more of them on volumes this server must
+	// not change: they are what a wrong notion of "writable" would destroy)
+	now0 := time.Now()
+	plantedRO := false
+	for ci, dir := range w.dirs {
+		k := order[ci]
+		guarded := ro[k] || (access != nil && (access[k].self == 2 || (access[k].self == 0 && access[k].other != 0)))
+		p := 3
+		if guarded {
+			p = 7
+		}
+		for bi := range hashes {
+			if r.Chance(p, 10) {
+				age := []int64{ttlS + 7200, ttlS + 90000, 1200, ttlS + 45, ttlS / 2}[r.Intn(5)]
+				c04Plant(dir, hashes[bi], "", datas[bi], now0.Add(-time.Duration(age)*time.Second-time.Duration(r.Intn(1e9))))
+				plantedRO = plantedRO || guarded
+			}
+			if r.Chance(p, 20) {
+				dead := now0.Unix() + []int64{3600, -3600, 90000, 40}[r.Intn(4)]
+				c04Plant(dir, hashes[bi], fmt.Sprintf(".trash.%d", dead), datas[bi], now0.Add(-time.Duration(ttlS+10000+int64(r.Intn(5000)))*time.Second-time.Duration(r.Intn(1e9))))
+				plantedRO = plantedRO || guarded
+			}
+		}
+	}
+	if plantedRO {
+		tags = append(tags, "planted-on-guarded-volume")
+	}
+	initial := w.listing()
+	before := initial
 	lastListing := gC04Listing(before, names)
 	for len(steps) < nops || len(script) > 0 {
 		var kind string
@@ -377,7 +480,7 @@ func c04History(t *testing.T, r *vRand, idx int) (string, map[string]interface{}
 					case 0:
 						mount = "zzzzz-nyw5e-999999999999999"
 					default:
-						mount = env.uuids[r.Intn(len(env.uuids))]
+						mount = env.cfgUUIDs[r.Intn(len(env.cfgUUIDs))]
 					}
 				}
 				TrashItem(env.h.volmgr, env.quiet, env.cluster, TrashRequest{Locator: ih, BlockMtime: m - w.off*1e9, MountUUID: mount})
@@ -457,24 +560,59 @@ func c04History(t *testing.T, r *vRand, idx int) (string, map[string]interface{}
 		tags = append(tags, "op="+kind, fmt.Sprintf("%s=%dxx", kind, code/100))
 		before = after
 	}
-	var gro, guu []string
+	// the configuration as written, in case order; the mounts as advertised
+	var gconf, gadv, dconf []string
 	mix := ""
-	for mi := range env.dirs {
-		gro = append(gro, gBool(env.ro[mi]))
-		guu = append(guu, gStr(env.uuids[mi]))
-		if env.ro[mi] {
-			mix += "R"
-		} else {
-			mix += "W"
+	for ci, k := range order {
+		d := fmt.Sprintf("%s ReadOnly=%v", env.cfgUUIDs[k], env.cfgRO[k])
+		if a := env.access[k]; a.self != 0 || a.other != 0 {
+			d += " AccessViaHosts{"
+			if a.self != 0 {
+				d += fmt.Sprintf("this server: ReadOnly=%v ", a.self == 2)
+			}
+			if a.other != 0 {
+				d += fmt.Sprintf("another server: ReadOnly=%v", a.other == 2)
+			}
+			d = strings.TrimSpace(d) + "}"
 		}
+		if ci < len(advU) {
+			d += fmt.Sprintf("; GET /mounts: read_only=%v", advRO[ci])
+		} else {
+			d += "; not in GET /mounts"
+		}
+		dconf = append(dconf, d)
+		var via []string
+		if a := env.access[k]; a.self != 0 {
+			via = append(via, fmt.Sprintf("(%s, %s)", gStr("me"), gBool(a.self == 2)))
+		}
+		if a := env.access[k]; a.other != 0 {
+			via = append(via, fmt.Sprintf("(%s, %s)", gStr("other"), gBool(a.other == 2)))
+		}
+		if r.Bool() && len(via) == 2 { // AccessViaHosts is a map: the order of its entries means nothing
+			via[0], via[1] = via[1], via[0]
+		}
+		gconf = append(gconf, fmt.Sprintf("CV %s %s %s", gStr(env.cfgUUIDs[k]), gBool(env.cfgRO[k]), gList(via)))
+		c := "W"
+		if env.cfgRO[k] {
+			c = "R"
+		}
+		c += []string{"", "w", "r"}[env.access[k].self]
+		if env.access[k].other != 0 {
+			c += "+" + []string{"", "w", "r"}[env.access[k].other]
+		}
+		if ci >= len(advU) {
+			c = "(" + c + ")"
+		}
+		mix += c + " "
 	}
-	empty := make([]string, len(env.dirs))
-	for k := range empty {
-		empty[k] = "([], [])"
+	mix = strings.TrimSpace(mix)
+	for i, u := range advU {
+		gadv = append(gadv, fmt.Sprintf("(%s, %s)", gStr(u), gBool(advRO[i])))
 	}
-	term := fmt.Sprintf("{| c_cfg := {| ttl := %d; life := %d; blob_trash := %s |};\n   c_ro := %s; c_uuid := %s; c_init := %s;\n   c_steps := %s |}",
-		ttl, lifeS*1e9, gBool(blobTrash), gList(gro), gList(guu), gList(empty), "expand "+gList(empty)+" [\n    "+strings.Join(steps, ";\n    ")+"]")
-	desc := map[string]interface{}{"index": idx, "volumes": mix, "hashes": names, "blob_trash": blobTrash, "lifetime_s": lifeS, "ttl_s": ttlS, "history": descs}
+	ginit := gC04Listing(initial, names)
+	term := fmt.Sprintf("HC %s %s %s\n   {| ttl := %d; life := %d; blob_trash := %s |}\n   %s\n   (expand %s [\n    %s])",
+		gStr("me"), gList(gconf), gList(gadv), ttl, lifeS*1e9, gBool(blobTrash), ginit, ginit, strings.Join(steps, ";\n    "))
+	desc := map[string]interface{}{"index": idx, "volumes": mix, "configuration": dconf, "planted": descC04Listing(initial, names), "hashes": names, "blob_trash": blobTrash, "lifetime_s": lifeS, "ttl_s": ttlS, "history": descs}
 	tags = append(tags, "vols="+mix, fmt.Sprintf("lifetime=%d", lifeS), fmt.Sprintf("blob_trash=%v", blobTrash))
 	if sawTrashed {
 		tags = append(tags, "saw=trashed")
@@ -487,4 +625,19 @@ func c04History(t *testing.T, r *vRand, idx int) (string, map[string]interface{}
 	}
 	nontrivial := sawTrashed || sawUntrash
 	return term, desc, tags, nontrivial, fuzzy
+}
+
+// c04Plant puts a file <dir>/<hash[:3]>/<hash><suffix> with the given content and timestamp in place.
+func c04Plant(dir, hash, suffix string, data []byte, mt time.Time) {
+	sub := filepath.Join(dir, hash[:3])
+	if err := os.MkdirAll(sub, 0755); err != nil {
+		panic(err)
+	}
+	p := filepath.Join(sub, hash+suffix)
+	if err := ioutil.WriteFile(p, data, 0644); err != nil {
+		panic(err)
+	}
+	if err := os.Chtimes(p, mt, mt); err != nil {
+		panic(err)
+	}
 }
